@@ -75,7 +75,7 @@ func (v *Variant) Gen(w *chain.World, c *run.Ctx, mix gen.Mix) *gen.Gen {
 }
 
 var MixAll = gen.Mix{"swapIn1": 14, "swapOut1": 8, "swap2hop": 5, "swapByDenom": 4, "joinSingle": 5, "joinAll": 5, "exit": 8, "levOpen": 8, "levClose": 7, "levStop": 2, "levClaim": 1, "levBot": 4,
-	"perpOpen": 10, "perpClose": 8, "perpSL": 2, "perpTP": 2, "perpBot": 5, "bond": 4, "unbond": 4, "donate": 2, "mcClaim": 3}
+	"perpOpen": 10, "perpClose": 8, "perpSL": 2, "perpTP": 2, "perpBot": 5, "bond": 4, "unbond": 4, "donate": 2, "mcClaim": 3, "burnSend": 1, "hostileRegistry": 1}
 
 func mons(ms ...mon.Monitor) func() []mon.Monitor {
 	return func() []mon.Monitor { return ms }
